@@ -136,6 +136,7 @@ func init() {
 		}
 		ruleCutoffProvenance(c, "C04-R6")
 		ruleSweeperCutoff(c, "C04-R6")
+		ruleTimestampNoWrap(c, "C04-R6")
 		ruleCutoffOrder(c, "C04-R7")
 		rulePlainIterator(c, "", "C04-R8")
 		if t != nil {
@@ -321,8 +322,11 @@ func init() {
 		c.Rule("C13-R5", "PER-DBI RESUME CURSOR")
 		ruleSweeper(c, "C13-R1", "C13-R3", "C13-R4", "C13-R5")
 		ruleSweeperCutoff(c, "C13-R2")
+		ruleTimestampNoWrap(c, "C13-R2")
 		c.Rule("C13-R6", "RESUME-EXACT: a slice resumes with SetRange on the saved (key, value) and steps past it exactly when it landed on that same entry")
 		ruleLimitScannerResume(c, "C13-R6")
+		c.Rule("C13-R7", "SLICE-ERROR-ABORTS: a failed slice transaction ends the pass with an error before the resume flag is looked at")
+		ruleSweepSliceErrors(c, "C13-R7")
 	})
 }
 
@@ -484,6 +488,8 @@ func init() {
 		ruleGetGlobal(c, "C17-R5")
 		ruleCancellableLoops(c, "C17-R6")
 		ruleLimiter(c, "C17-R7")
+		c.Rule("C17-R8", "SHARED-FIELDS: every struct field written after construction and reachable from goroutines not ordered by start-up is accessed under a common lock (static lockset over the VTA call graph)")
+		ruleSharedFields(c, "C17-R8")
 	})
 }
 
